@@ -796,15 +796,15 @@ theorem genTemplates_own_volume (gen : String → G → Generated K) (st st' : G
 omit [Field K] in
 /-- `BuildDirector.finalize`: the user's size of a residue name reaches the hash of the user's template of
 that name and stays available under the name (no hash of the build file is itself a residue name of it) -/
-theorem rekeyVolumes_spec (vols : Dict K) (r2h : Dict String)
+theorem rekeyPairs_spec (vols : Dict K) (r2h : List (String × String))
     (hdisj : ∀ rh ∈ r2h, ∀ rh' ∈ r2h, rh.2 ≠ rh'.1) :
-    (∀ rh ∈ r2h, (rekeyVolumes vols r2h).get? rh.1 = vols.get? rh.1) ∧
+    (∀ rh ∈ r2h, (rekeyPairs vols r2h).get? rh.1 = vols.get? rh.1) ∧
     (∀ rh ∈ r2h, ∀ v, vols.get? rh.1 = some v →
       (∀ rh' ∈ r2h, rh'.2 = rh.2 → vols.get? rh'.1 = some v ∨ vols.get? rh'.1 = none) →
-      (rekeyVolumes vols r2h).get? rh.2 = some v) := by
-  unfold rekeyVolumes
+      (rekeyPairs vols r2h).get? rh.2 = some v) := by
+  unfold rekeyPairs
   -- generalise: fold over a suffix `l` of the list, names keep their value in the accumulator
-  have key : ∀ (l : Dict String) (acc : Dict K),
+  have key : ∀ (l : List (String × String)) (acc : Dict K),
       (∀ rh ∈ l, ∀ rh' ∈ r2h, rh.2 ≠ rh'.1) →
       (∀ rh' ∈ r2h, acc.get? rh'.1 = vols.get? rh'.1) →
       (∀ rh' ∈ r2h, (l.foldl (fun vs rh => match vs.get? rh.1 with
@@ -1112,10 +1112,11 @@ end sizepos
 section buildfile
 variable {K : Type} [Field K]
 
-theorem rekeyVolumes_has (vols : Dict K) (r2h : Dict String) (k : String) (h : vols.has k = true) :
+theorem rekeyVolumes_has (vols : Dict K) (r2h : Dict (List String)) (k : String) (h : vols.has k = true) :
     (rekeyVolumes vols r2h).has k = true := by
-  unfold rekeyVolumes
-  induction r2h generalizing vols with
+  unfold rekeyVolumes rekeyPairs
+  generalize r2hPairs r2h = pairs
+  induction pairs generalizing vols with
   | nil => exact h
   | cons rh l ih =>
     simp only [List.foldl_cons]
